@@ -1,7 +1,9 @@
-"""conversion / comparison op server (C08): ordered pairs of mapping types, all-dynamic extents (so that the
-padded mandates are vacuous), ranks 0-3, several index-type pairs and padding values."""
+"""conversion / comparison op server (C08): ordered pairs of mapping types, ranks 0-3, several index-type pairs and
+padding values; all-dynamic extents for the full matrix plus a family with static / mixed extents patterns on both
+sides (values consistent with the static extents, so that the Mandates hold)."""
+import hashlib
 from vf.common import ITYPES
-from harness.gen_map import cxx_extents, KINDS
+from harness.gen_map import cxx_extents, KINDS, pat_str
 TPAIRS = [('i32', 'i32'), ('i32', 'i64'), ('u8', 'i32'), ('i64', 'u16'), ('u64', 'u64'), ('i16', 'u32')]
 LAYS = [('left', None), ('right', None), ('stride', None), ('lpad', 'D'), ('lpad', 2), ('lpad', 4), ('rpad', 'D'), ('rpad', 2), ('rpad', 4)]
 def instances():
@@ -14,18 +16,54 @@ def instances():
                     if sk == dk and sk in ('lpad', 'rpad') and ssp != 'D' and dsp != 'D' and ssp != dsp: continue
                     if (t, u) != ('i32', 'i32') and (ssp not in (None, 'D', 4) or dsp not in (None, 'D', 4)): continue
                     out.append((sk, ssp, t, dk, dsp, u, r))
+    out = [i + (None, None) for i in out]
+    # static / mixed patterns: shape per rank, masks (True = static) for source and target
+    SHAPES = {1: [(4,), (3,)], 2: [(4, 4), (2, 3)], 3: [(4, 3, 4), (2, 3, 2)]}
+    LAYS2 = [('left', None), ('right', None), ('stride', None), ('lpad', 'D'), ('lpad', 4), ('rpad', 'D'), ('rpad', 4)]
+    def masks(r):
+        allS, allD = (True,) * r, (False,) * r
+        mixA = tuple(k % 2 == 0 for k in range(r)); mixB = tuple(k % 2 == 1 for k in range(r))
+        return [(allS, allD), (allD, allS), (allS, allS), (mixA, mixB), (mixB, mixA), (mixA, allS)]
+    for (t, u) in [('i32', 'i32'), ('u8', 'i32'), ('i64', 'u16')]:
+        for r in (1, 2, 3):
+            combos = [(sh, m) for sh in SHAPES[r] for m in masks(r)]
+            for (sk, ssp) in LAYS2:
+                for (dk, dsp) in LAYS2:
+                    if (t, u) == ('i64', 'u16') and (sk, dk) not in (('left', 'left'), ('right', 'stride'), ('stride', 'left'), ('lpad', 'lpad'), ('rpad', 'right'), ('left', 'lpad')): continue
+                    h = int(hashlib.sha256(repr((t, u, r, sk, ssp, dk, dsp)).encode()).hexdigest(), 16)
+                    for q in range(2):
+                        sh, (ms, md_) = combos[(h + q * 5) % len(combos)]
+                        spat = tuple(e if m else None for e, m in zip(sh, ms)); dpat = tuple(e if m else None for e, m in zip(sh, md_))
+                        if not mandates_ok(sk, ssp, dk, dsp, r, spat, dpat): continue
+                        out.append((sk, ssp, t, dk, dsp, u, r, spat, dpat))
     return out
+def mandates_ok(sk, ssp, dk, dsp, r, spat, dpat):
+    """the static_asserts (Mandates) of the padded converting constructors: combinations they reject do not compile
+    (that they are rejected is checked by C16's mandate probes); layout_padded_fwd.hpp check_..._mandates and
+    layout_padded.hpp, constructors from layout_left / layout_right"""
+    if r <= 1: return True
+    lm = lambda p, e: -(-e // p) * p
+    if (dk, sk) in (('left', 'lpad'), ('right', 'rpad')):
+        i = 0 if sk == 'lpad' else r - 1
+        if dpat[i] is not None and spat[i] is not None and ssp not in (None, 'D'): return dpat[i] % ssp == 0
+    if (dk, sk) in (('lpad', 'left'), ('rpad', 'right')):
+        i = 0 if dk == 'lpad' else r - 1
+        if dsp not in (None, 'D') and dpat[i] is not None and spat[i] is not None: return lm(dsp, dpat[i]) == spat[i]
+    return True
+def shape_of(i):
+    """the extents values a static-family instantiation is consistent with (None where both sides are dynamic)"""
+    return [a if a is not None else b for a, b in zip(i[7], i[8])]
 def sp(x): return 'md::dynamic_extent' if x in (None, 'D') else str(x)
-def key(kind, i): return '%s:%s:%s:%s' % (kind, i[0], i[2], '%s,%s,%s,%s,%d' % (i[1], i[3], i[4], i[5], i[6]))
-def line(kind, i): return '%s %s %s k=%s' % (kind, i[0], i[2], '%s,%s,%s,%s,%d' % (i[1], i[3], i[4], i[5], i[6]))
+def key(kind, i): return '%s:%s:%s%s:%s' % (kind, i[0], i[2], (':%s:%s' % (pat_str(i[7]), pat_str(i[8]))) if i[7] is not None else '', '%s,%s,%s,%s,%d' % (i[1], i[3], i[4], i[5], i[6]))
+def line(kind, i): return '%s %s %s k=%s%s' % (kind, i[0], i[2], '%s,%s,%s,%s,%d' % (i[1], i[3], i[4], i[5], i[6]), (' pat=%s spat=%s' % (pat_str(i[7]), pat_str(i[8]))) if i[7] is not None else '')
 def lite(insts):
-    return [i for i in insts if (i[2], i[5]) in (('i32', 'i32'), ('u8', 'i32')) and i[6] <= 2]
+    return [i for i in insts if (i[2], i[5]) in (('i32', 'i32'), ('u8', 'i32')) and i[6] <= 2 and (i[7] is None or (i[2], i[5]) == ('i32', 'i32'))]
 
 def sources(ntu=16, insts=None):
     tus = [[] for _ in range(ntu)]
     for n, i in enumerate(insts if insts is not None else instances()):
-        sk, ssp, t, dk, dsp, u, r = i
-        tus[n % ntu].append('  regConv<%s, %s, %s, %s, %s, %s>("%s", "%s");' % (KINDS[sk], cxx_extents(t, [None] * r), sp(ssp), KINDS[dk], cxx_extents(u, [None] * r), sp(dsp), key('conv', i), key('mapeq', i)))
+        sk, ssp, t, dk, dsp, u, r, spat, dpat = i
+        tus[n % ntu].append('  regConv<%s, %s, %s, %s, %s, %s>("%s", "%s");' % (KINDS[sk], cxx_extents(t, spat if spat is not None else [None] * r), sp(ssp), KINDS[dk], cxx_extents(u, dpat if dpat is not None else [None] * r), sp(dsp), key('conv', i), key('mapeq', i)))
     srcs = [('conv_tu%d.cpp' % i, '#include "convsrv.hpp"\nusing namespace vh;\nvoid reg_conv_%d() {\n%s\n}\n' % (i, '\n'.join(b))) for i, b in enumerate(tus)]
     srcs.append(('conv_main.cpp', '#include "vh.hpp"\n' + ''.join('void reg_conv_%d();\n' % i for i in range(ntu)) + 'int main() {\n' + ''.join('  reg_conv_%d();\n' % i for i in range(ntu)) + '  return vh::serve();\n}\n'))
     return srcs
